@@ -174,7 +174,9 @@ Definition tag (c : cfg) (st : state) (n t : nat) : state * res :=
       end in
     ({| blobs := blobs st;
         idx := set_ref (RTag t) n (set_ref (RDig n) n (stale ++ idx st));
-        gnodes := gnodes st; strays := strays st; autogc := autogc st |}, Ok)
+        (* Store.Tag indexes a manifest before it is named in index.json (graph.Index) *)
+        gnodes := if manifest n then n :: removeb n (gnodes st) else gnodes st;
+        strays := strays st; autogc := autogc st |}, Ok)
   else (st, ENotFound).
 
 Definition untag (st : state) (t : nat) : state * res :=
@@ -189,10 +191,20 @@ Definition untag (st : state) (t : nat) : state * res :=
   end.
 
 (* ---------- Store.delete ---------- *)
+(* the reference map after delete(n): every reference to n goes; a manifest that loses its
+   last predecessor gets a by-digest reference unless it has one (it stays listed in
+   index.json until it is deleted itself) *)
+Definition del_idx (st : state) (n : nat) : list (ref * nat) :=
+  let ix := filter (fun e => negb (Nat.eqb (snd e) n)) (idx st) in
+  map (fun d => (RDig d, d))
+      (filter (fun d => manifest d && match lookup (RDig d) ix with None => true | Some _ => false end)
+              (danglings (gnodes st) n))
+  ++ ix.
+
 Definition delete_one (st : state) (n : nat) : state * list nat * res :=
   let dang := danglings (gnodes st) n in
   let st' := {| blobs := removeb n (blobs st);
-                idx := filter (fun e => negb (Nat.eqb (snd e) n)) (idx st);
+                idx := del_idx st n;
                 gnodes := removeb n (gnodes st);
                 strays := strays st; autogc := autogc st |} in
   (st', dang, if memb n (blobs st) then Ok else ENotFound).
